@@ -1,1 +1,27 @@
-From Olareg Require Import Base Index Reg GC.
+(* Props_C06.v — collection removes the garbage and is not starved (model: GC.v). *)
+From Olareg Require Import Base Index Reg RegProofs GC GCProofs.
+Local Open Scope list_scope.
+
+(* every blob that the mark phase did not reach and that the grace period does not protect is deleted *)
+Theorem C06_unmarked_removed : forall pol now blobs seen inidx l st d,
+  In d (map fst l) -> mem_str d seen = false ->
+  (young pol now blobs d && negb (mem_str d inidx)) = false ->
+  In d (snd (fold_left (sweep_blob pol now blobs seen inidx) l st)).
+Proof. exact sweep_deletes_unseen. Qed.
+Print Assumptions C06_unmarked_removed.
+
+(* and only those: a deleted blob was unmarked and unprotected *)
+Theorem C06_removed_only_garbage : forall pol now blobs seen inidx l st d,
+  In d (snd (fold_left (sweep_blob pol now blobs seen inidx) l st)) ->
+  In d (snd st) \/ (In d (map fst l) /\ mem_str d seen = false
+                    /\ (young pol now blobs d && negb (mem_str d inidx)) = false).
+Proof. exact sweep_deleted_spec. Qed.
+Print Assumptions C06_removed_only_garbage.
+
+(* the store-wide pass collects every repository on its own: the outcome for r does not depend on the
+   presence, order or failure of the others *)
+Theorem C06_pass_independent : forall cfg E pol now fails repos r,
+  assoc r (gc_pass cfg E pol now fails repos)
+  = option_map (fun rp => if fails r then rp else gc_one cfg E pol now rp) (assoc r repos).
+Proof. exact gc_pass_independent. Qed.
+Print Assumptions C06_pass_independent.
